@@ -284,7 +284,7 @@ class YncaCommandHandler(socketserver.StreamRequestHandler):
             return
 
         # Assume ZONEBVOL is independant of VOL
-        if (function == "VOL" or function == "ZONEBVOL") and value.startswith("Up") or value.startswith("Down"):
+        if (function == "VOL" or function == "ZONEBVOL") and (value.startswith("Up") or value.startswith("Down")):
             # Need to handle Up/Down as it would otherwise overwrite the VOL value wtih text Up/Down
             up = value.startswith("Up")
 
